@@ -297,7 +297,7 @@ def pool_pel(draw):
                          'comp': 0x2C00, 'data': draw(S.payload(24))})
         else:
             secs.append(draw(S.raw_section(max_len=12)))
-    pel = draw(S.pel_model(creator=creator, secs=st.just(secs)))
+    pel = draw(S.pel_model(creator=creator, secs=st.just(secs), selectable=draw(st.integers(0, 3)) != 0))
     blob = M.encode(pel)
     if kind == 'damaged':
         cc = draw(corruption_case('quick'))
@@ -398,14 +398,23 @@ class HistoryMachine(RuleBasedStateMachine):
     def headers(self, i):
         self.step(['headers', self.pool[i]['blob']], 'headers of PEL #%d' % i)
 
-    @rule(idx=st.lists(pels, min_size=1, max_size=4), mode=st.sampled_from([['-a'], ['-a', '-r'], ['-l'], ['-a', '-E'],
-                                                                          ['-l', '-E', '-r'], ['-n', '-E']]))
+    @rule(idx=st.lists(pels, min_size=1, max_size=4), mode=st.sampled_from([
+        ['-a'], ['-a', '-r'], ['-l'], ['-a', '-E'], ['-l', '-E', '-r'], ['-n', '-E'],
+        ['-a', '-S', 'Recovered', 'Informational', 'Predictive', 'Unrecoverable', 'Critical', 'Diagnostic', 'Symptom'],
+        ['-a', '-r', '-S', 'Informational', 'Recovered'], ['-a', '-N', '-H'], ['-n', '-S', 'Recovered', 'Critical']]))
     def directory(self, idx, mode):
         files = [['pel%02d_%d' % (k, i), self.pool[i]['blob']] for k, i in enumerate(idx)]
         got = self.step(['cli', mode, files], 'peltool %s over PELs %r' % (' '.join(mode), idx))
         # -a equals the per-file fresh decodes, in file-name order (reversed with -r)
         if mode[0] == '-a' and got[0] == 'cli' and got[1] == 0:
             cfg = {'every_pel': '-E' in mode}
+            if '-S' in mode:
+                gt = RUN.R.pel_values.severityGroupValues
+                cfg['severities'] = [gt[g] for g in mode[mode.index('-S') + 1:]]
+            if '-N' in mode:
+                cfg['non_serviceable'] = True
+            if '-H' in mode:
+                cfg['hidden'] = True
             docs = []
             for name, blob in files:
                 r = fresh(['decode', blob, cfg])
